@@ -93,6 +93,56 @@ package at
 //@   at return: assert names-every-key-column-of-every-row: 0 <= r && r < len(records.Rows) && 0 <= c && c < len(records.Rows[r].Columns) && 0 <= k && k < len(keys) && keys[k] == records.Rows[r].Columns[c].ColumnName ==> contains(result, fmtv(records.Rows[r].Columns[c].Value))
 //@   nopanic
 
+// C03, first sentence, collection: the image builder of every DML executor puts the lock key built
+// from the image it returns (the rows the statement writes) into the transaction context.
+// Environment (trusted / assumed): SQL text building, the image query on the target connection,
+// the table meta cache, scanning rows into an image (buildRecordImages: success gives an image).
+//@ ext seata.apache.org/seata-go/pkg/datasource/sql/util.CtxDriverQuery
+//@   ensures result1 == nil ==> result0 != nil
+//@ func (*baseExecutor).buildRecordImages
+//@   trusted
+//@   ensures result1 == nil ==> result0 != nil
+//@ func (*insertExecutor).buildAfterImageSQL
+//@   trusted
+//@   ensures true
+//@ func (*updateExecutor).buildBeforeImageSQL
+//@   trusted
+//@   ensures true
+//@ func (*deleteExecutor).buildBeforeImageSQL
+//@   trusted
+//@   ensures true
+//@ func (*insertOnUpdateExecutor).buildAfterImageSQL
+//@   trusted
+//@   ensures true
+//@ func (*insertExecutor).afterImage
+//@   prop C03
+//@   requires i != nil && i.execContext != nil && i.execContext.TxCtx != nil && i.execContext.TxCtx.LockKeys != nil && ctx != nil
+//@   modifies heap.all
+//@   ensures key-of-the-image-is-collected: result1 == nil && result0 != nil ==> called("buildLockKey#1") && callarg("buildLockKey#1", 1) == result0 && haskey(i.execContext.TxCtx.LockKeys, callres("buildLockKey#1", 0))
+//@   at call buildLockKey#1: assert key-from-this-tables-meta: metaData != nil
+//@   may_panic
+//@ func (*updateExecutor).beforeImage
+//@   prop C03
+//@   requires u != nil && u.execContext != nil && u.execContext.TxCtx != nil && u.execContext.TxCtx.LockKeys != nil && ctx != nil
+//@   modifies heap.all
+//@   ensures key-of-the-image-is-collected: result1 == nil && result0 != nil ==> called("buildLockKey#1") && callarg("buildLockKey#1", 1) == result0 && haskey(u.execContext.TxCtx.LockKeys, callres("buildLockKey#1", 0))
+//@   at call buildLockKey#1: assert key-from-this-tables-meta: metaData != nil
+//@   may_panic
+//@ func (*deleteExecutor).beforeImage
+//@   prop C03
+//@   requires d != nil && d.execContext != nil && d.execContext.TxCtx != nil && d.execContext.TxCtx.LockKeys != nil && ctx != nil
+//@   modifies heap.all
+//@   ensures key-of-the-image-is-collected: result1 == nil && result0 != nil ==> called("buildLockKey#1") && callarg("buildLockKey#1", 1) == result0 && haskey(d.execContext.TxCtx.LockKeys, callres("buildLockKey#1", 0))
+//@   at call buildLockKey#1: assert key-from-this-tables-meta: metaData != nil
+//@   may_panic
+//@ func (*insertOnUpdateExecutor).afterImage
+//@   prop C03
+//@   requires i != nil && i.execContext != nil && i.execContext.TxCtx != nil && i.execContext.TxCtx.LockKeys != nil && ctx != nil
+//@   modifies heap.all
+//@   ensures key-of-the-image-is-collected: result1 == nil && result0 != nil ==> called("buildLockKey#1") && callarg("buildLockKey#1", 1) == result0 && haskey(i.execContext.TxCtx.LockKeys, callres("buildLockKey#1", 0))
+//@   at call buildLockKey#1: assert key-from-this-tables-meta: metaData != nil
+//@   may_panic
+
 //@ func (*selectForUpdateExecutor).doExecContext
 //@   prop C03 C16
 //@   requires s != nil && s.execContext != nil && s.execContext.TxCtx != nil && s.execContext.Conn != nil && s.metaData != nil
